@@ -161,3 +161,114 @@ Proof.
 From IQ Require CountingBridge.
 exact CountingBridge.weight_tk_is_the_source. Qed.
 Print Assumptions C02_weight_tk_is_the_source.
+
+(* ==== transcript-MODEL count tables.  CountingModels.v is a faithful model of the read bookkeeping of src/graph_based_model_construction.py
+        (transcript_read_ids, read_assignment_counts, transcript_model_storage; save_assigned_read, delete_from_storage, assign_reads_to_models),
+        of forward_counts (the calls add_read_info_raw / add_unassigned / add_confirmed_features of the transcript-model counter, i.e. the events
+        ERaw / EUnassigned / EConfirm of CountingCounter.v) and of GFFPrinter.dump_read_assignments (transcript_model_reads.tsv); proofs in
+        CountingModelsProofs.v; the harness runs the REAL methods on generated step sequences against it (correspondence model_bookkeeping). *)
+From Coq Require Import Permutation.
+From IQ Require Import CountingModels CountingModelsProofs GroupedProofs.
+
+(* every sequence of model creations, reads saved during construction, deletions and (re-)assignment rounds in which reads are stored for models of
+   the storage only leaves read_assignment_counts[r] = number of stored (model, r) pairs, with pairwise different keys *)
+Theorem C02_model_bookkeeping_consistent : forall ops, legal ms_empty ops -> consistent (process ops).
+Proof. exact process_consistent. Qed.
+Print Assumptions C02_model_bookkeeping_consistent.
+Theorem C02_model_legal_is_decidable : forall ops st, legalb st ops = true -> legal st ops.
+Proof. exact legalb_sound. Qed.
+Print Assumptions C02_model_legal_is_decidable.
+
+(* from consistent bookkeeping forward_counts issues, up to order, exactly one add_read_info_raw per read stored for some model - with ALL the models
+   it is stored for and its group - then add_unassigned(number of reads stored for no model) and add_confirmed_features(reported models) *)
+Theorem C02_model_counter_calls : forall st, consistent st -> Permutation (forward_counts st) (canon_events st).
+Proof. exact forward_counts_perm. Qed.
+Print Assumptions C02_model_counter_calls.
+
+(* the transcript-model table: the cell of model f is 0 when f is not reported and otherwise the sum, over the reads, of (number of times f is among
+   the read's models) x (1 for a read with one model, the documented ambiguous-read weight of the strategy for a read with k > 1 models) *)
+Theorem C02_model_table_is_weighted_sum : forall cf complete st st', consistent st -> ungrouped_cfg cf ->
+  run cf (init_state complete) (forward_counts st) = Some st' ->
+  forall f cells, In (f, cells) (dump_ungrouped cf st') -> exists v, cells = [v] /\ (v == model_cell (c_strategy cf) st f None)%Q.
+Proof. exact model_table_is_weighted_sum. Qed.
+Print Assumptions C02_model_table_is_weighted_sum.
+(* ... stated from the step sequence *)
+Theorem C02_model_table_of_process : forall ops cf complete st', legal ms_empty ops -> ungrouped_cfg cf ->
+  run cf (init_state complete) (forward_counts (process ops)) = Some st' ->
+  forall f cells, In (f, cells) (dump_ungrouped cf st') -> exists v, cells = [v] /\ (v == model_cell (c_strategy cf) (process ops) f None)%Q.
+Proof. intros ops cf complete st' L. apply model_table_is_weighted_sum, process_consistent, L. Qed.
+Print Assumptions C02_model_table_of_process.
+(* ... and read off the INPUT of one assignment round on fresh bookkeeping (models, then per read of the storage its id, group and the models the assigner
+   found it consistent with; read ids pairwise different): every read contributes to each of its models 1 when that is its only model and the
+   documented weight for k models otherwise (1/k under with_ambiguous / all, 0 under the other strategies) *)
+Theorem C02_model_cell_from_round_input : forall s models res f gsel, models <> [] -> NoDup (map rid res) ->
+  (model_cell s (process (map OModel models ++ [OAssign res])) f gsel == input_cell s res models f gsel)%Q.
+Proof. intros s models res f gsel M N. rewrite (process_round models res M). apply assigned_cell, N. Qed.
+Print Assumptions C02_model_cell_from_round_input.
+(* a reported model is confirmed, i.e. never zeroed *)
+Theorem C02_reported_model_never_zeroed : forall s st f gsel, In f (m_models st) -> model_cell s st f gsel = qsum' (map (model_contrib s st f gsel) (reads st)).
+Proof. exact reported_model_cell. Qed.
+Print Assumptions C02_reported_model_never_zeroed.
+
+(* no read contributes a total weight above 1 to the transcript-model table (summed over any set of models) *)
+Theorem C02_model_read_contribution_le_1 : forall s st r F, NoDup F -> (qsum' (map (fun f => model_contrib s st f None r) F) <= 1)%Q.
+Proof. exact model_read_contribution_le_1. Qed.
+Print Assumptions C02_model_read_contribution_le_1.
+
+(* __ambiguous = reads stored for two or more models, __no_feature = reads stored for no model, __not_aligned contribution 0 *)
+Theorem C02_model_stats_lines_count : forall cf complete st st', consistent st -> run cf (init_state complete) (forward_counts st) = Some st' ->
+  n_amb st' = n_amb_spec st /\ n_noassign st' = n_nofeat_spec st /\ n_noalign st' = 0.
+Proof. exact model_stats_lines_count. Qed.
+Print Assumptions C02_model_stats_lines_count.
+
+(* transcript_model_reads.tsv determines the table: the call sequence a reader reconstructs from its lines (per read id the list of its models, '*'
+   lines as unassigned reads, every reported model confirmed - what the pipeline-level check does with counts_ok / stats_ok) gives the same cells and
+   the same statistics as the calls forward_counts made *)
+Theorem C02_model_reads_table_matches_counts : forall s lv st f gsel, consistent st ->
+  (spec_cell s lv (events_from_r2t (r2t_lines st) (grp_of st) (m_models st)) f gsel == spec_cell s lv (forward_counts st) f gsel)%Q /\
+  spec_ambiguous lv (events_from_r2t (r2t_lines st) (grp_of st) (m_models st)) = spec_ambiguous lv (forward_counts st) /\
+  spec_no_feature (events_from_r2t (r2t_lines st) (grp_of st) (m_models st)) = spec_no_feature (forward_counts st).
+Proof. exact model_reads_table_matches_counts. Qed.
+Print Assumptions C02_model_reads_table_matches_counts.
+
+(* grouped transcript-model table: every matrix cell is the weighted sum over the reads of that group, and the groups add up to the ungrouped cell *)
+Theorem C02_model_matrix_is_weighted_sum : forall cf complete st st', consistent st -> enum_cfg cf ->
+  run cf (init_state complete) (forward_counts st) = Some st' -> forallb (wf_event cf) (forward_counts st) = true ->
+  forall f cells, In (f, cells) (dump_matrix cf st') -> Forall2 (fun g v => (v == model_cell (c_strategy cf) st f (Some g))%Q) (c_ordered cf) cells.
+Proof. exact model_matrix_is_weighted_sum. Qed.
+Print Assumptions C02_model_matrix_is_weighted_sum.
+Theorem C02_model_groups_partition : forall s st f gs, consistent st -> NoDup gs -> (forall e, In e (flat (m_tri st)) -> In (e_g e) gs) ->
+  (qsum' (map (fun g => model_cell s st f (Some g)) gs) == model_cell s st f None)%Q.
+Proof. exact model_groups_partition. Qed.
+Print Assumptions C02_model_groups_partition.
+
+(* the hypothesis `consistent` is what carries the table: bookkeeping in which a read stored for two models has count 1 (what a single increment per read
+   in assign_reads_to_models produces) makes forward_counts add 1 to BOTH models under unique_only, where the documented cell is 0 *)
+Example C02_model_table_inconsistent_bookkeeping_refuted :
+  let st := mkms [(1, [(7, 0)]); (2, [(7, 0)])] [(7, 1)] [1; 2] in
+  let cf := mk_counter UniqueOnly TranscriptLevel 0 [] false (true, true) in
+  forward_counts st = [ERaw true [1] 0; ERaw true [2] 0; EUnassigned 0; EConfirm [1; 2]] /\
+  (model_cell UniqueOnly st 1 None == 0)%Q /\ (model_cell WithAmbiguous st 1 None == 1 # 2)%Q /\
+  match run cf (init_state []) (forward_counts st) with
+  | Some s1 => dump_ungrouped cf s1 = [(1, [1%Q]); (2, [1%Q])] /\ n_amb s1 = 0 | None => False end.
+Proof. vm_compute. repeat split; reflexivity. Qed.
+(* the clean statement "a read stored for ONE model counts 1 for it" needs the read to be stored once: a read id saved twice for the same model (two
+   records of one read in the storage) is forwarded as ambiguous between the model and itself - 0 under unique_only, 2 x 1/2 under with_ambiguous *)
+Example C02_model_read_stored_once_refuted :
+  let ops := [OModel 1; OSave 7 0 1; OSave 7 0 1] in
+  legalb ms_empty ops = true /\ forward_counts (process ops) = [ERaw true [1; 1] 0; EUnassigned 0; EConfirm [1]] /\
+  r2t_lines (process ops) = [(7, Some 1); (7, Some 1)] /\
+  (model_cell UniqueOnly (process ops) 1 None == 0)%Q /\ (model_cell WithAmbiguous (process ops) 1 None == 1)%Q.
+Proof. vm_compute. repeat split; reflexivity. Qed.
+(* non-vacuity: two models, three reads (one shared), a deletion between the rounds, re-assignment *)
+Example C02_model_example_run :
+  let ops := [OModel 1; OModel 2; OModel 3; OSave 5 0 3; OAssign [(5, 0, Some [1]); (6, 0, Some [1; 2]); (7, 0, Some [2]); (8, 0, None)];
+              ODelete 3; OAssign [(5, 0, Some [1; 2]); (6, 0, Some [1]); (7, 0, Some [2]); (8, 0, Some [])]] in
+  let cf := mk_counter WithAmbiguous TranscriptLevel 0 [] false (true, true) in
+  legalb ms_empty ops = true /\
+  forward_counts (process ops) = [ERaw true [2] 0; ERaw true [1; 2] 0; ERaw true [1; 2] 0; EUnassigned 1; EConfirm [1; 2]] /\
+  match run cf (init_state []) (forward_counts (process ops)) with
+  | Some s1 => map (fun r => (fst r, map Qred (snd r))) (dump_ungrouped cf s1) = [(1, [1%Q]); (2, [2%Q])] /\ stats_of s1 = (2, 1, 0, 4)
+  | None => False end /\
+  (Qred (model_cell WithAmbiguous (process ops) 2 None) = 2)%Q.
+Proof. vm_compute. repeat split; reflexivity. Qed.
